@@ -50,8 +50,13 @@ func (k *KnownFile) match(prop, ob string) *KnownFinding {
 		if f.Property != prop {
 			continue
 		}
-		if f.Obligation == ob || strings.HasSuffix(f.Obligation, "*") && strings.HasPrefix(ob, strings.TrimSuffix(f.Obligation, "*")) {
+		if f.Obligation == ob {
 			return f
+		}
+		if strings.Contains(f.Obligation, "*") {
+			if globMatch(f.Obligation, ob) {
+				return f
+			}
 		}
 	}
 	return nil
@@ -106,7 +111,7 @@ func cmdCheck(args []string) int {
 	var fcs []*vc.FnContract
 	for _, fc := range L.Contracts {
 		for _, p := range fc.C.Props {
-			if p == prop {
+			if p == prop && (os.Getenv("GOVC_ONLY") == "" || strings.Contains(fc.C.QName(), os.Getenv("GOVC_ONLY"))) {
 				fcs = append(fcs, fc)
 			}
 		}
@@ -360,4 +365,25 @@ func reportViolation(L *Loaded, prop string, rep *vc.FuncReport, ob *vc.Obligati
 		fmt.Printf("  counterexample: %s\n", modelString(rep, ob))
 		fmt.Printf("  replay on the real code: %s\n", outcome)
 	}
+}
+
+// globMatch: '*' matches any run of characters (including none); everything else is literal.
+func globMatch(pat, s string) bool {
+	parts := strings.Split(pat, "*")
+	if !strings.HasPrefix(s, parts[0]) {
+		return false
+	}
+	s = s[len(parts[0]):]
+	for i := 1; i < len(parts); i++ {
+		p := parts[i]
+		if i == len(parts)-1 {
+			return strings.HasSuffix(s, p)
+		}
+		k := strings.Index(s, p)
+		if k < 0 {
+			return false
+		}
+		s = s[k+len(p):]
+	}
+	return true
 }
